@@ -1,7 +1,11 @@
 (* C12 - result tables list every mutation once per sample, consistent with the tree.
-   Model: Model/Table.v.  `result` is what a command writes (table rows + Newick structure), None when
-   the pinned code raises. *)
-From PV Require Import Model.Table Proofs.TableProofs.
+   Model: Model/Table.v.  `result` is what a command of the pinned code writes (table rows + Newick structure),
+   None when it raises; `result_fixed` is the same with the graph conversion repaired (graph nodes added
+   independently of the edge list).  The row theorems are stated on `result_fixed` for EVERY tree; by C12_total
+   they are statements about the pinned code's output for every tree with at least one clone (C12_on_pinned).
+   wf_tree data t : DataPoint names are distinct, the tree's data indices are distinct and index `data`.
+   wf_clusters cl : every mutation of the cluster file is listed under one cluster. *)
+From PV Require Import Model.Table Proofs.TableProofs Proofs.TableRows.
 Local Open Scope Z_scope.
 
 (* the commands complete for every tree with at least one clone ... *)
@@ -9,17 +13,88 @@ Theorem C12_total : forall data clusters samples vals t, troots t <> [] ->
   result data clusters samples vals t = Some (result_fixed data clusters samples vals t).
 Proof. exact result_total. Qed.
 Print Assumptions C12_total.
+(* ... and whatever the pinned code writes is result_fixed *)
+Theorem C12_on_pinned : forall data clusters samples vals t x,
+  result data clusters samples vals t = Some x -> x = result_fixed data clusters samples vals t.
+Proof. exact result_some. Qed.
+Print Assumptions C12_on_pinned.
 
-(* ... and for no tree without a clone (every data point an outlier): KeyError 'root' in the graph
+(* ... and for NO tree without a clone (every data point an outlier): KeyError 'root' in the graph
    conversion.  This refutes the last sentence of the property on the pinned code. *)
 Theorem C12_all_outliers_none : forall data clusters samples vals t, troots t = [] ->
   result data clusters samples vals t = None.
 Proof. exact result_all_outliers. Qed.
 Print Assumptions C12_all_outliers_none.
 
+(* every input mutation exactly once per sample, and nothing else - unclustered: the DataPoint names *)
+Theorem C12_each_once : forall data samples vals t, wf_tree data t -> NoDup samples ->
+  let tb := fst (result_fixed data None samples vals t) in
+  (forall m s, In m data -> In s samples -> count_rows m s tb = 1%nat)
+  /\ (forall row, In row tb -> In (c_mut row) data /\ In (c_sample row) samples).
+Proof. exact each_once_unclustered. Qed.
+Print Assumptions C12_each_once.
+(* clustered: every mutation of the cluster file (also those whose cluster has no data point: outlier fill-in) *)
+Theorem C12_each_once_clustered : forall data clusters samples vals t,
+  wf_tree data t -> wf_clusters clusters -> NoDup samples ->
+  let tb := fst (result_fixed data (Some clusters) samples vals t) in
+  (forall m s, In m (map fst clusters) -> In s samples -> count_rows m s tb = 1%nat)
+  /\ (forall row, In row tb -> In (c_mut row) (map fst clusters) /\ In (c_sample row) samples).
+Proof. exact each_once_clustered. Qed.
+Print Assumptions C12_each_once_clustered.
+
+(* every clone id of the table is -1 or a node of the accompanying Newick tree *)
+Theorem C12_clone_ids_in_newick : forall data clusters samples vals t row,
+  In row (fst (result_fixed data clusters samples vals t)) ->
+  c_clone row = -1 \/ exists l, c_clone row = Z.of_nat l
+                               /\ In (Some l) (nw_labels (snd (result_fixed data clusters samples vals t))).
+Proof. exact clone_ids_in_newick. Qed.
+Print Assumptions C12_clone_ids_in_newick.
+
+(* all mutations of a cluster share one clone *)
+Theorem C12_cluster_shares_clone : forall data clusters samples vals t, wf_tree data t -> wf_clusters clusters ->
+  forall r1 r2, In r1 (fst (result_fixed data (Some clusters) samples vals t)) ->
+                In r2 (fst (result_fixed data (Some clusters) samples vals t)) ->
+                c_cluster r1 = c_cluster r2 -> c_clone r1 = c_clone r2.
+Proof. exact cluster_shares_clone. Qed.
+Print Assumptions C12_cluster_shares_clone.
+
+(* CCF and clonal prevalence are -1 for outlier rows, otherwise the clone's values in the row's sample *)
+Theorem C12_values : forall data clusters samples (vals : vals_t) t row,
+  In row (fst (result_fixed data clusters samples vals t)) ->
+  (c_clone row = -1 /\ c_ccf row = minus_one /\ c_prev row = minus_one)
+  \/ exists l j, c_clone row = Z.of_nat l /\ In l (node_labels t)
+                 /\ nth_error samples j = Some (c_sample row)
+                 /\ c_ccf row = nth j (fst (vals l)) 0%Qc /\ c_prev row = nth j (snd (vals l)) 0%Qc.
+Proof. exact values_fixed. Qed.
+Print Assumptions C12_values.
+
+(* ---- witnesses ---- *)
 Example C12_all_outliers_refuted :
   result [10; 11; 12]%nat None [0; 1]%nat (fun _ => ([], [])) (mkT [] [0; 1; 2]%nat) = None
   /\ fst (result_fixed [10; 11]%nat None [0]%nat (fun _ => ([], [])) (mkT [] [0; 1]%nat))
      = [mkC 10 (-1) None 0 minus_one minus_one; mkC 11 (-1) None 0 minus_one minus_one].
 Proof. split; vm_compute; reflexivity. Qed.
 Print Assumptions C12_all_outliers_refuted.
+
+(* non-vacuity: clustered input, two samples, a two-level tree with an outlier cluster and a cluster of the
+   cluster file that has no data point (mutation 6 in cluster 9) *)
+Definition ex_data : list nat := [0; 2; 5]%nat.                          (* cluster ids of the three data points *)
+Definition ex_clusters : list (nat * nat) := [(1, 0); (2, 0); (3, 2); (4, 5); (5, 5); (6, 9)]%nat.
+Definition ex_tree : tree := mkT [LNode 7 [1]%nat [LNode 3 [0]%nat []]] [2]%nat.
+Definition ex_vals : vals_t := fun l => ([Q2Qc (1#1); Q2Qc (3#4)], [Q2Qc (1#2); Q2Qc (1#4)]).
+Example C12_nontrivial :
+  match result ex_data (Some ex_clusters) [0; 1]%nat ex_vals ex_tree with
+  | Some (tb, nw) =>
+      length tb = 12%nat
+      /\ map (fun r => (c_mut r, c_clone r)) (filter (fun r => Nat.eqb (c_sample r) 0) tb)
+         = [(3%nat, 7); (1%nat, 3); (2%nat, 3); (4%nat, -1); (5%nat, -1); (6%nat, -1)]
+      /\ nw_edges nw = [(None, Some 7%nat); (Some 7%nat, Some 3%nat)]
+  | None => False
+  end
+  /\ NoDup ex_data /\ wf_clusters ex_clusters.
+Proof.
+  split; [vm_compute; repeat split; reflexivity|].
+  split; [repeat constructor; cbn; intuition discriminate|].
+  unfold wf_clusters. cbn. repeat constructor; cbn; intuition discriminate.
+Qed.
+Print Assumptions C12_nontrivial.
